@@ -48,8 +48,10 @@ structure Cell where
 structure Side where
   seq : List Nat           -- entry ids in delivery order (up to cap)
   cut : Bool
-  run : RunClass
+  run : RunClass           -- the provider's own class errors.Is finds in what `Run` returned (`other` = none, not nil)
   end_ : EndClass
+  runClose : Bool := false -- round 3: errors.Is finds the error of closing the ammo file in what `Run` returned
+  closed : Option Nat := none -- round 3: number of `Close` calls on the ammo file (`none` = no file to look at)
   deriving Repr, DecidableEq
 
 structure Obs where
@@ -92,8 +94,10 @@ def expectedSeq (c : Cell) : List Nat :=
 
 /-- same delivered sequence (and the same need to be cut at the cap) -/
 def seqEquivOk (o : Obs) : Bool := o.s.seq == o.p.seq && o.s.cut == o.p.cut
-/-- `Run` ends the same way and consumers see the same end -/
-def endEquivOk (o : Obs) : Bool := o.s.run == o.p.run && o.s.end_ == o.p.end_
+/-- `Run` ends the same way (the same error as errors.Is sees it, the error of `Close` included), consumers see the same
+end, the ammo file has been closed equally often -/
+def endEquivOk (o : Obs) : Bool :=
+  o.s.run == o.p.run && o.s.end_ == o.p.end_ && o.s.runClose == o.p.runClose && o.s.closed == o.p.closed
 def equivOk (o : Obs) : Bool := seqEquivOk o && endEquivOk o
 def chosenOk (c : Cell) (o : Obs) : Bool :=
   o.s.seq == expectedSeq c && o.p.seq == expectedSeq c &&
@@ -106,7 +110,16 @@ def holds (c : Cell) (o : Obs) : Bool :=
   if noMatch c then o.s.seq.isEmpty && o.p.seq.isEmpty && equivOk o
   else equivOk o && chosenOk c o && tagsOk o
 
-def showSide (x : Side) : String := s!"seq={x.seq} cut={x.cut} run={x.run.name} end={x.end_.name}"
+/-- the token of what `Run` returned: `closeerr` = the error of Close alone, `<class>+closeerr` = found together -/
+def Side.runToken (x : Side) : String :=
+  if x.runClose then (if x.run == .other || x.run == .nil then "closeerr" else x.run.name ++ "+closeerr") else x.run.name
+
+def Side.closedToken (x : Side) : String :=
+  match x.closed with
+  | some n => toString n
+  | none => "-"
+
+def showSide (x : Side) : String := s!"seq={x.seq} cut={x.cut} run={x.runToken} end={x.end_.name} closed={x.closedToken}"
 
 def judge (c : Cell) (o : Obs) : String :=
   if noMatch c then
@@ -116,7 +129,7 @@ def judge (c : Cell) (o : Obs) : String :=
   else if !tagsOk o then "fail:tags:a delivered ammo does not carry the tag of its entry"
   else if !seqEquivOk o then s!"fail:equiv-seq:streaming delivers {o.s.seq}{if o.s.cut then "…" else ""}, preload {o.p.seq}{if o.p.cut then "…" else ""}"
   else if !chosenOk c o then s!"fail:chosen:delivered {o.s.seq} expected {expectedSeq c}"
-  else if !endEquivOk o then s!"fail:equiv-end:streaming ends [run={o.s.run.name} end={o.s.end_.name}], preload [run={o.p.run.name} end={o.p.end_.name}]"
+  else if !endEquivOk o then s!"fail:equiv-end:streaming ends [run={o.s.runToken} end={o.s.end_.name} closed={o.s.closedToken}], preload [run={o.p.runToken} end={o.p.end_.name} closed={o.p.closedToken}]"
   else "ok"
 
 /-! ## round 2: the delivered REQUESTS (Host + headers, method, body), and a provider that kills its process
